@@ -389,6 +389,9 @@ func genMatchCase(r *vlib.R, emit func(string)) int {
 		}
 		emit("bl state")
 		n += 1 + reserve(r, emit, 2) + emitQueries(r, u, emit, 3+r.Intn(5))
+		if r.Chance(1, 3) {
+			n += emitDrainOneMap(r, emit)
+		}
 	}
 	emit("bl held")
 	n++
@@ -774,6 +777,44 @@ var bulkBudget int
 // remoteBudget bounds the remote-list downloads (each starts a loopback server).
 var remoteBudget int
 
+// emitDrainOneMap: remove every plain entry while a wildcard stays (or the other
+// way round), then ask - on every request kind - about names the remaining map covers.
+func emitDrainOneMap(r *vlib.R, emit func(string)) int {
+	m, wild := memLists()
+	if len(m) == 0 || len(wild) == 0 {
+		return 0
+	}
+	n := 0
+	ask := func(under string) {
+		for _, k := range []string{"serve", "wserve", "iserve"} {
+			emit(fmt.Sprintf("bl %s %s %d", k, enc("px."+under), vlib.Pick(r, []uint16{dns.TypeA, dns.TypeAAAA, dns.TypeMX})))
+			n++
+		}
+	}
+	if r.Bool() {
+		if len(m) == 1 || r.Bool() {
+			for _, e := range m {
+				emit("bl remove " + enc(e))
+				n++
+			}
+		} else {
+			emit("bl removebatch " + encList(m))
+			n++
+		}
+		ask(wild[r.Intn(len(wild))])
+	} else {
+		var ws []string
+		for _, w := range wild {
+			ws = append(ws, "*."+w)
+		}
+		emit("bl removebatch " + encList(ws))
+		n++
+		ask(m[r.Intn(len(m))])
+	}
+	emit("bl state")
+	return n + 1
+}
+
 // apiBudget bounds the cases that talk through the HTTP API (each starts a listener).
 var apiBudget int
 
@@ -972,6 +1013,20 @@ func gen(r *vlib.R, n int, tier string, emit func(string)) {
 	emit("bl iserve " + enc("deep.sub.example.com.") + " 28")
 	emit("bl iserve " + enc("example.org.") + " 1")
 	emit("bl iserve " + enc("late.cdn.example.org.") + " 16")
+	// the last plain entry goes while a wildcard stays (and the other way round)
+	emit("bl new 0.0.0.0 :: _ _ _")
+	emit("bl set " + enc("*.tracker.net"))
+	emit("bl set " + enc("ads.example"))
+	emit("bl remove " + enc("ads.example"))
+	emit("bl serve " + enc("px.tracker.net.") + " 1")
+	emit("bl wserve " + enc("px.tracker.net.") + " 28")
+	emit("bl iserve " + enc("px.tracker.net.") + " 15")
+	emit("bl set " + enc("ads.example"))
+	emit("bl removebatch " + encList([]string{"*.tracker.net"}))
+	emit("bl serve " + enc("x.ads.example.") + " 1")
+	emit("bl serve " + enc("px.tracker.net.") + " 1")
+	emit("bl remove " + enc("ads.example"))
+	emit("bl serve " + enc("x.ads.example.") + " 1")
 	// a batch as large as one chunk of whatever chunking an implementation might use
 	emit("bl new 0.0.0.0 :: _ _ _")
 	emit("bl bulk set 2048 " + enc("bulk.example.net"))
